@@ -172,6 +172,7 @@ func TestC13Sweeps(t *testing.T) {
 		t.Skip("runs in the first shard only")
 	}
 	rec := harness.Get("C13")
+	rec.SetScope("sweeps")
 	pr := parseWhole("def b \"n\" { x = 1 + 2.5; y = \"s\" }\nbind b -> struct\nprint 3\n", "name")
 	must(pr.err)
 	d := append([]byte{}, pr.dump...)
